@@ -27,12 +27,16 @@ RULE = (
     "extended in about half of the cases) and a well-formed CAS over it "
     "(scen.gen_cspec: 1-3 views with ASCII/BMP/astral/empty text, cycles, diamonds, shared and unshared collections, "
     "null elements, referenced-only structures, special floats, 8..64-bit limits) plus, added here, sofas that hold a "
-    "URI or a byte array (with and without an id), a DocumentAnnotation instance, one id-less unindexed structure. "
+    "URI or a byte array (with and without an id), a DocumentAnnotation instance, one id-less unindexed structure; and "
+    "(after /repo d1bc860 and d94ad6a, from a random stream of its own) the byte array of a sofa is, in combinations, shared "
+    "with a second sofa, indexed in a view, referenced by a TOP- or ByteArray-ranged feature or by an element of an FSArray. "
     "Configurations: type_system_mode x (typesystem argument, merge_typesystem) in the 8 combinations the API can serve "
     "x pretty_print x ensure_ascii x sink in {string, str path, Path} are enumerated round-robin so that every "
     "combination occurs; every case additionally loads the document under all its applicable (typesystem, merge) "
     "arguments and in a presentation variant of the harness's own writer (FS as id-keyed object, FS order reversed / "
-    "shuffled / sofas last, type declarations and members shuffled). A case is non-trivial when the CAS has >= 2 "
+    "shuffled / sofas last, type declarations and members shuffled). The oracle demands every structure exactly once in the document, one Python "
+    "object per id in every loaded CAS (identity: what was shared is shared) and an equal re-serialisation. "
+    "A case is non-trivial when the CAS has >= 2 "
     "feature structures and at least one reference or collection feature set."
 )
 TRUSTED = [
@@ -62,7 +66,7 @@ ASSUMPTIONS = [
     "feature names do not start with '%', '@' or '#'; one definition of a name per inheritance chain",
     "array structures hold a list in `elements` (None is written like [] and comes back as [])",
     "annotations carry the sofa of a view of the CAS and offsets inside its text; sofa texts have no lone surrogates",
-    "a sofa byte array is not also indexed or referenced by a feature (it would be written twice)",
+    "the byte array of a sofa holds bytes (uima.cas.ByteArray); it may serve several sofas and be indexed / referenced as well",
     "explicit ids of unindexed structures do not collide with ids the generator hands out later",
     "ids of structures without an explicit id are compared only where the traversal order cannot depend on id() (at most "
     "one such structure besides the sofa byte arrays)",
@@ -224,6 +228,86 @@ def build(cassis, sc):
     return ts, cas, views, objs
 
 
+def share_sofa_arrays(r, cassis, tspec, da_feats, cspec):
+    """Sofa byte arrays that are more than the private data of one sofa (/repo d1bc860, d94ad6a): shared by a second sofa,
+    indexed in a view, referenced by a feature (range TOP or ByteArray) or by an element of an FSArray, with and without an id,
+    in combinations.  Drawn from a random stream of its own so that the rest of every scenario is what it was.  Returns the
+    list of knobs applied (for the distribution)."""
+    schema = schema2(cassis, tspec, da_feats)
+    objs, members, views = cspec["objs"], cspec["members"], cspec["views"]
+    by = {o["o"]: o for o in objs}
+    ann_views = {o["slots"]["sofa"]["sofa"] for o in objs if o["slots"].get("sofa")}
+    free = [i for i, v in enumerate(views) if v["name"] not in ann_views and v.get("array") is None]
+    knobs = []
+    used = {o["id"] for o in objs if o["id"] is not None} | set(range(1, len(views) + 1))
+    if not any(v.get("array") is not None for v in views) and free and r.random() < 0.6:
+        # no sofa holds an array yet: give one to a view that has no annotations
+        i = free.pop(r.randrange(len(free)))
+        lab = max(o["o"] for o in objs) + 1
+        n = r.choice([0, 1, 3, 5])
+        objs.append({"o": lab, "type": "uima.cas.ByteArray", "id": None,
+                     "slots": {"elements": {"list": [{"i": r.choice([0, 255, 10, r.randint(0, 255)])} for _ in range(n)]}}})
+        by[lab] = objs[-1]
+        views[i]["array"] = lab
+        views[i]["text"] = None
+        knobs.append("added")
+    shared_to = set()
+    for i, v in enumerate(list(views)):
+        a = v.get("array")
+        if a is None or i in shared_to:
+            continue
+        arr = by[a]
+        if free and r.random() < 0.55:
+            j = free.pop(r.randrange(len(free)))
+            views[j]["array"] = a
+            if r.random() < 0.7:
+                views[j]["text"] = None
+            shared_to.add(j)
+            knobs.append("shared")
+        if r.random() < 0.4:
+            if arr["id"] is None:           # an indexed structure carries an id (Cas.add hands one out): make it explicit
+                arr["id"] = max(used) + r.randint(1, 3)
+                used.add(arr["id"])
+            members.append([r.randrange(len(views)), a])
+            knobs.append("indexed")
+        if r.random() < 0.45:
+            holders = []
+            for o in objs:
+                if o["type"] not in schema or o["o"] == a or o["type"] in scen.ARRS or o["type"] == scen.FS_ARRAY:
+                    continue          # (`elements` of an array type is declared with range TOP: not a feature to set)
+                for pn, _xn, rng, _el, _multi in schema[o["type"]]["feats"]:
+                    if rng in (scen.TOP, "uima.cas.ByteArray") and pn != "sofa":
+                        holders.append((o, pn))
+            fsarrs = [o for o in objs if o["type"] == scen.FS_ARRAY and isinstance(o["slots"].get("elements"), dict)]
+            pick = r.random()
+            if holders and (pick < 0.75 or not fsarrs):
+                o, pn = r.choice(holders)
+                o["slots"][pn] = {"ref": a}
+                knobs.append("referenced")
+            elif fsarrs:
+                o = r.choice(fsarrs)
+                o["slots"]["elements"]["list"].append({"ref": a})
+                knobs.append("element")
+    if any(k in ("shared", "indexed", "referenced", "element") for k in knobs):
+        knobs.append("idless" if any(by[v["array"]]["id"] is None for v in views if v.get("array") is not None) else "with_id")
+    keep_ids_apart(cspec)
+    return knobs
+
+
+def keep_ids_apart(cspec):
+    """ASSUMPTIONS: explicit ids of unindexed structures stay away from the ids the generator hands out during a save (to the
+    id-less sofa byte arrays and to the id-less unindexed structure)."""
+    objs = cspec["objs"]
+    mem = {l for _v, l in cspec["members"]}
+    used = {o["id"] for o in objs if o["id"] is not None} | set(range(1, len(cspec["views"]) + 1))
+    nxt = next_id(cspec)
+    for o in objs:
+        if o["o"] not in mem and o["id"] is not None and nxt <= o["id"] < nxt + 8:
+            used.discard(o["id"])
+            o["id"] = max(used | {nxt + 8}) + 9
+            used.add(o["id"])
+
+
 def list_element_types(r, tspec):
     """scen.gen_tspec declares an element type only on FSArray features.  TypeSystem.create_feature documents elementType
     for uima.cas.FSArray *and* uima.cas.FSList, and the JSON type section writes it differently for the two (array: inside
@@ -257,17 +341,18 @@ def make_scenario(sub, k, big=False):
     list_element_types(random.Random(sub ^ 0x2E1E), tspec)
     cspec = scen.gen_cspec(r, cassis, tspec, n_objs=(1, 14 if big else 7), all_ids=True)
     da_feats = _extend(r, cassis, tspec, cspec)
+    knobs = share_sofa_arrays(random.Random(sub ^ 0x50FA), cassis, tspec, da_feats, cspec)
     variant = dict(VARIANTS[(k // len(COMBOS) + k) % len(VARIANTS)], seed=r.randrange(1 << 30))
     return {"tspec": tspec, "da_feats": da_feats, "cspec": cspec,
             "cfg": {"mode": mode, "load": load, "pretty": pretty, "ascii": asc, "sink": sink, "variant": variant,
-                    "coq_variant": k % 3 == 0}}
+                    "coq_variant": k % 3 == 0 or bool(knobs), "array_knobs": knobs}}
 
 
 # ------------------------------------------------------------------------------------------------ implementation driver
 
 
 def _workdir():
-    d = os.path.join("/verif/.work", str(os.getpid()))
+    d = os.path.join(os.path.dirname(os.path.dirname(os.path.dirname(os.path.abspath(__file__)))), ".work", str(os.getpid()))
     os.makedirs(d, exist_ok=True)
     return d
 
@@ -307,6 +392,38 @@ def sofa_obs(cas):
              sorted(x.xmiID for x in cas.get_view(s.sofaID).select_all())] for s in cas.sofas]
 
 
+def objects_per_id(cas):
+    """xmiID -> number of distinct Python objects that carry it, over everything the CAS holds: view members, the byte arrays
+    of the sofas, and whatever these reach through features, array elements and list nodes.  Identity-based (id()); the
+    sofas themselves are left out.  More than one object under an id = sharing lost."""
+    ts = cas.typesystem
+    seen = {}
+    todo = []
+    for sofa in cas.sofas:
+        todo.extend(cas.get_view(sofa.sofaID).select_all())
+        if sofa.sofaArray is not None:
+            todo.append(sofa.sofaArray)
+    while todo:
+        x = todo.pop()
+        if x is None or not (hasattr(x, "type") and hasattr(x, "xmiID")) or hasattr(x, "sofaID") or id(x) in seen:
+            continue
+        seen[id(x)] = x
+        try:
+            feats = ts.get_type(x.type.name).all_features
+        except Exception:  # noqa
+            feats = []
+        for f in feats:
+            v = getattr(x, f.name, None)
+            if isinstance(v, list):
+                todo.extend(e for e in v if e is not None and not isinstance(e, (int, float, str, bool)))
+            elif v is not None and not isinstance(v, (int, float, str, bool, bytes)):
+                todo.append(v)
+    count = {}
+    for x in seen.values():
+        count[x.xmiID] = count.get(x.xmiID, 0) + 1
+    return count
+
+
 def run_impl(cassis, sc):
     cfg = sc["cfg"]
     ts, cas, _views, _objs = build(cassis, sc)
@@ -324,6 +441,8 @@ def run_impl(cassis, sc):
         try:
             ts_in = build_ts(cassis, sc["tspec"], sc["da_feats"]) if ts_arg == "orig" else None
             loaded = cassis.load_cas_from_json(text, typesystem=ts_in, merge_typesystem=merge)
+            per_id = objects_per_id(loaded)
+            rec["twice"] = sorted(i for i, n in per_id.items() if n > 1 and i is not None)
             rec["canon"] = scen.canon(loaded, "json")
             rec["tsdump"] = ts_dump(loaded.typesystem)
             rec["resave"] = J.parse(_to_json(loaded, cfg["mode"], cfg["pretty"], cfg["ascii"], "str"))
@@ -344,7 +463,9 @@ def run_impl(cassis, sc):
         ts_arg, merge = cfg["load"]
         ts_in = build_ts(cassis, sc["tspec"], sc["da_feats"]) if ts_arg == "orig" else None
         vtext = J.emit(vdoc, pretty=not cfg["pretty"], ensure_ascii=not cfg["ascii"])
-        obs["variant_canon"] = scen.canon(cassis.load_cas_from_json(vtext, typesystem=ts_in, merge_typesystem=merge), "json")
+        vloaded = cassis.load_cas_from_json(vtext, typesystem=ts_in, merge_typesystem=merge)
+        obs["variant_twice"] = sorted(i for i, n in objects_per_id(vloaded).items() if n > 1 and i is not None)
+        obs["variant_canon"] = scen.canon(vloaded, "json")
     except Exception as e:  # noqa
         obs["variant_error"] = f"{type(e).__name__}: {e}"
     return obs
@@ -401,9 +522,20 @@ def oracle(cassis, sc, obs):
         return "to_json with other pretty_print/ensure_ascii/sink flags describes another JSON value"
     if not obs["ascii_ok"]:
         return "ensure_ascii=True produced non-ASCII bytes"
+    # every structure is in the document exactly once: the sofas, and the structures the content of the CAS consists of
+    ids = [i for i, _m in J.entries(obs["doc"])]
+    twice = sorted({i for i in ids if ids.count(i) > 1}, key=str)
+    if twice:
+        return f"the document lists a structure more than once: %ID {twice}"
+    want_ids = sorted([int(k) for k in want["fs"]] + [s_["id"] for s_ in want["sofas"]])
+    if sorted(ids, key=str) != sorted(want_ids, key=str):
+        return f"the document lists the ids {sorted(ids, key=str)}, the CAS consists of {want_ids}"
     need = needed_declarations(sc, want)
     for rec in obs["loads"]:
         tag = f"mode={cfg['mode']} typesystem={rec['ts']} merge_typesystem={rec['merge']}"
+        if rec.get("twice"):
+            return (f"sharing lost: the loaded CAS holds several objects under one id {rec['twice']} -- a structure the "
+                    f"document lists once (a sofa byte array also held by another sofa / a view / a feature) was built twice ({tag})")
         if "error" in rec:
             return f"load_cas_from_json failed ({tag}): {rec['error']}"
         d = _diff(want, rec["canon"])
@@ -431,6 +563,8 @@ def oracle(cassis, sc, obs):
                 if got[0] != f["range"] or not ok_elem or bool(got[2]) != bool(f.get("multi")):
                     return (f"feature {n}:{f['name']} declared as range={got[0]} elem={got[1]} multi={got[2]}, "
                             f"original range={f['range']} elem={elem} multi={f.get('multi')} ({tag})")
+    if obs.get("variant_twice"):
+        return (f"sharing lost in presentation variant {cfg['variant']}: several objects under one id {obs['variant_twice']}")
     if "variant_error" in obs:
         return f"presentation variant {cfg['variant']} could not be loaded: {obs['variant_error']}"
     d = _diff(want, obs["variant_canon"])
@@ -509,8 +643,9 @@ def render(sc, obs):
     if cfg.get("coq_variant") and "variant_canon" in obs:
         variant = "(Some (" + J.gallina(obs["variant"]) + "))"
     mode = {"FULL": "MFull", "MINIMAL": "MMinimal", "NONE": "MNone"}[cfg["mode"]]
+    once = "true" if not load.get("twice") and not obs.get("variant_twice") else "false"
     t = (f"mkCase {scen.g_schema(schema, names)} {builtin} {mode}\n ({g_cas(sc)})\n ({J.gallina(obs['doc'])})\n "
-         f"({scen.g_ccas(obs['canon'])})\n ({scen.g_ccas(load['canon'])})\n {variant}")
+         f"({scen.g_ccas(obs['canon'])})\n ({scen.g_ccas(load['canon'])})\n {variant} {once}")
     return t.replace("%string", "")
 
 
@@ -575,7 +710,9 @@ def signature(sc, msg):
 def distribution(scenarios, observations):
     modes, loads, sinks, variants = {}, {}, {}, {}
     feats = {"byte_array_sofa": 0, "uri_sofa": 0, "docann_extended": 0, "docann_instance": 0, "idless": 0, "multi_view": 0,
-             "astral_text": 0, "fslist_elem_declared": 0, "fslist_elem_declared_and_set": 0, "fsarray_elem_declared": 0}
+             "astral_text": 0, "fslist_elem_declared": 0, "fslist_elem_declared_and_set": 0, "fsarray_elem_declared": 0,
+             "sofa_array_shared": 0, "sofa_array_indexed": 0, "sofa_array_referenced": 0, "sofa_array_fsarray_element": 0,
+             "sofa_array_combined": 0, "sofa_array_special_idless": 0, "sofa_array_special_with_id": 0}
     for sc in scenarios:
         cfg = sc["cfg"]
         modes[cfg["mode"]] = modes.get(cfg["mode"], 0) + 1
@@ -597,6 +734,14 @@ def distribution(scenarios, observations):
         feats["fslist_elem_declared_and_set"] += any(k in le for o in sc["cspec"]["objs"] for k in o["slots"])
         feats["fsarray_elem_declared"] += any(f["range"] == scen.FS_ARRAY and f.get("elem") for t in sc["tspec"] for f in t["feats"])
         feats["astral_text"] += any(any(c > 0xFFFF for c in (v.get("text") or [])) for v in vs)
+        kn = cfg.get("array_knobs") or []
+        feats["sofa_array_shared"] += "shared" in kn
+        feats["sofa_array_indexed"] += "indexed" in kn
+        feats["sofa_array_referenced"] += "referenced" in kn
+        feats["sofa_array_fsarray_element"] += "element" in kn
+        feats["sofa_array_combined"] += len({"shared", "indexed", "referenced", "element"} & set(kn)) >= 2
+        feats["sofa_array_special_idless"] += "idless" in kn
+        feats["sofa_array_special_with_id"] += "with_id" in kn
     n_loads = sum(len(o["loads"]) for o in observations if o)
     return {"cases": len(scenarios), "modes": modes, "load_arguments": loads, "sink_flags": sinks, "variants": variants,
             "features": feats, "loads_executed": n_loads,
